@@ -410,7 +410,9 @@ func (vm *Type) Run(retResult bool) (value.Type, error) {
 			nip := m.IP()
 			if nip == nil {
 				m.ResetSP()
-				m.Push(val)
+				if retResult { // nobody pops the value of a top level return otherwise
+					m.Push(val)
+				}
 				ip = len(*cs) - 1
 				break
 			}
